@@ -51,6 +51,8 @@ func replayOne(t *testing.T, rf *vstat.ReplayFile) string {
 		return "replay file is for property " + rf.Property + ", this engine decides C11"
 	}
 	switch {
+	case rf.Part == "window":
+		return replayWindow(t, rf)
 	case rf.Part == "large":
 		return replayLarge(rf)
 	case rf.Part == "stress":
